@@ -116,7 +116,15 @@ def symbolic_part(chk):
             if set(reads) != eligible or len(reads) != 3 * len(eligible):
                 problems.append('reads %r, expected each of %r once per category' % (sorted(set(reads)), sorted(eligible)))
             if problems:
-                chk.violation('main:effects', 'main() with %s: %s' % (label, '; '.join(problems)), {'reads': reads})
+                # confirm on the compiled binary (same configuration, real file system, system-call log) before reporting
+                nat = native_configuration(chk, stale_cwd, stale_in_dir, same_dir, has_findings, tree_name)
+                if nat is None:
+                    chk.undecide('main() with %s: %s (not replayed: strace is not usable here)' % (label, '; '.join(problems)))
+                elif not nat:
+                    chk.broken('main() with %s: the engine finds "%s", the compiled binary opens, reads and writes exactly what it should' % (label, '; '.join(problems)))
+                else:
+                    chk.violation('main:effects', 'solstat with %s: %s (symbolically: %s)' % (label, '; '.join(nat), '; '.join(problems)),
+                                  {'job': 'solstat', 'configuration': label, 'reads': reads})
             else:
                 chk.ok()
             if writes:
@@ -200,6 +208,62 @@ def strace_run(binary, argv, cwd, log):
 def in_tree(path, *roots):
     ap = os.path.normpath(path)
     return not ap.startswith(('/', '..')) or any(ap.startswith(r) for r in roots)
+
+
+def native_configuration(chk, stale_cwd, stale_in_dir, same_dir, has_findings, tree_name):
+    """the configuration on a real file system under strace -> list of problems ([] = behaves as the property demands), None = no strace"""
+    base = os.path.join(chk.native.dir, 'cfg%d' % chk.native.n)
+    chk.native.n += 1
+    cwd = os.path.join(base, 'cwd')
+    os.makedirs(cwd)
+    troot = cwd if same_dir else os.path.join(cwd, 'target')
+    os.makedirs(troot, exist_ok=True)
+    counter = [0]
+
+    def put(entries, d):
+        for ent in entries:
+            p = os.path.join(d, ent[1])
+            if ent[0] == 'dir':
+                os.makedirs(p, exist_ok=True); put(ent[2], p)
+            else:
+                counter[0] += 1
+                pats = ['solidity_math', 'floating_pragma', 'constructor_order'] if has_findings and ent[2] in ('a', 'b', 'rs') else []
+                text = dl.file_text(pats, counter[0]) if ent[1].lower().endswith('.sol') else 'stale or other text %d\n' % counter[0]
+                if not has_findings and ent[1].lower().endswith('.sol'):
+                    text = 'pragma solidity 0.8.16;\n'              # a file on which no detector reports anything
+                open(p, 'w').write(text)
+    entries = list(TREES[tree_name])
+    if stale_in_dir or (same_dir and stale_cwd):
+        entries.append(('file', 'solstat_report.md', 'stale'))
+    put(entries, troot)
+    stale_text = 'STALE ' * 5000
+    if stale_cwd and not same_dir:
+        open(os.path.join(cwd, 'solstat_report.md'), 'w').write(stale_text)
+    before = tree_digest(cwd, skip=('solstat_report.md',))
+    had_report = os.path.exists(os.path.join(cwd, 'solstat_report.md'))
+    old_report = open(os.path.join(cwd, 'solstat_report.md')).read() if had_report else None
+    ev = strace_run(os.path.join(chk.world.build, 'solstat'), ['--path', '.' if same_dir else 'target'], cwd, os.path.join(base, 'strace.log'))
+    if ev is None:
+        return None
+    chk.validated += 1
+    problems = []
+    if ev['rc'] != 0:
+        problems.append('exit status %d' % ev['rc'])
+    wopens = [(p, fl) for p, fl in ev['wopens'] if not p.startswith(('/dev/', '/proc/'))]
+    if [p for p, _ in wopens] != ['solstat_report.md']:
+        problems.append('files opened for writing: %r (exactly solstat_report.md is required, also when nothing is found)' % ([p for p, _ in wopens],))
+    elif 'O_TRUNC' not in wopens[0][1] or 'O_APPEND' in wopens[0][1]:
+        problems.append('solstat_report.md is opened with %s' % '|'.join(wopens[0][1]))
+    if set(ev['writes_fd']) - {'solstat_report.md'}:
+        problems.append('data written to %r' % sorted(set(ev['writes_fd']) - {'solstat_report.md'}))
+    if ev['mutating']:
+        problems.append('mutating system calls: %r' % ev['mutating'][:4])
+    if before != tree_digest(cwd, skip=('solstat_report.md',)):
+        problems.append('files other than the report changed')
+    rp = os.path.join(cwd, 'solstat_report.md')
+    if had_report and os.path.exists(rp) and open(rp).read() == old_report and old_report:
+        problems.append('the report of the previous run is still there, unchanged')
+    return problems
 
 
 def syscall_validation(chk, w, root, r, stale_cwd, stale_in_dir, same_dir, has_findings, tree_name, label):
